@@ -678,6 +678,21 @@ fn misc(rng: &mut Rng) -> Result<(), String> {
     if s3.len() != 3 || !s3.contains(&4) || !s3.contains(&2) || !s3.contains(&9) {
         return Err("HashSet::from([..]) disagrees with inserting the elements".into());
     }
+    // extend within spare capacity from an iterator whose size_hint has a loose upper bound (filter): no allocation
+    {
+        let mut st: HashSet<u64> = HashSet::with_capacity(100);
+        let (c0, a0) = (st.capacity(), st.allocation_size());
+        st.extend((0..100_000u64).filter(|x| x % 40_000 == 7));
+        if st.len() != 3 || st.capacity() != c0 || st.allocation_size() != a0 {
+            return Err(format!("extend by {} keys within capacity {} changed capacity to {}", st.len(), c0, st.capacity()));
+        }
+        let mut mp: HashMap<u64, u64> = HashMap::with_capacity(50);
+        let (c0, a0) = (mp.capacity(), mp.allocation_size());
+        mp.extend((0..1_000_000u64).filter(|x| x % 300_000 == 1).map(|x| (x, x)));
+        if mp.len() != 4 || mp.capacity() != c0 || mp.allocation_size() != a0 {
+            return Err(format!("map extend by {} keys within capacity {} changed capacity to {}", mp.len(), c0, mp.capacity()));
+        }
+    }
     // get_many_mut with unsized key forms that start at the same address (prefixes of one buffer)
     let buf = "abcdefgh";
     let mut sm: HashMap<String, u64> = HashMap::new();
